@@ -7,7 +7,7 @@ META = {
     "id": "C04",
     "level": "model_checking",
     "technique": "TLA+ spec Dispatch (configuration product with Expected/Refuser derived from the availability of perturbative ingredients) checked by TLC for table consistency; every planned configuration turned into concrete cards and solved by the real solver (fixed-node quadrature shim, 2-point grid); outcome records (exception class, message, finiteness of every stored array) judged by TLC (DispatchTrace) with C04_Verdict",
-    "text": "The configuration space (QCD order 1-4 x QED order 0-2 x 8 solution methods x 3 scale-variation schemes x polarized x time-like x path shape single/up/down, and for two methods the degenerate shapes point (target = initial point) and wall (crossing that ends exactly on the matching scale with the upper nf) x inversion method x alpha_em running x whether the path has an nf=6 segment: 21120 configurations) is a set of initial states in TLC. The thorough tier executes all of it on the real solver, the quick tier a seeded covering subset that always contains every refusal class; TLC decides for each outcome whether it is finite-and-supported, a clean refusal (NotImplementedError/ValueError) of an unavailable ingredient, or a violation (crash with another exception, non-finite numbers, supported configuration refused, unavailable ingredient silently computed).",
+    "text": "The configuration space (QCD order 1-4 x QED order 0-2 x 8 solution methods x 3 scale-variation schemes x polarized x time-like x path shape single/up/down, and for two methods the degenerate shapes point (target = initial point) and wall (crossing that ends exactly on the matching scale with the upper nf) x inversion method x alpha_em running x whether the path has an nf=6 segment: 21120 configurations) is a set of initial states in TLC. The thorough tier executes all of it on the real solver, the quick tier a seeded covering subset that always contains every refusal class; TLC decides for each outcome whether it is finite-and-supported, a clean refusal (NotImplementedError/ValueError) of an unavailable ingredient, or a violation (crash with another exception, non-finite numbers, supported configuration refused, unavailable ingredient silently computed, refusal whose message names none of the unavailable features of the configuration).",
     "note": "The quadrature shim replaces scipy.integrate.quad inside eko.evolution_operator by a 4-node rule: every eko function on the path still runs, integrals are not accurate (finiteness and dispatch are what C04 states). QED with polarized/time-like flags is not specified by the documentation (the QED kernels ignore the flags): either outcome accepted there, crashes still flagged. Couplings in the perturbative range (alpha_s(M_Z)=0.118, scales 2-7 GeV).",
     "design_ref": "4.9, 5 C04",
     "rule": "configuration record; distinct by all fields; non-trivial = not refused at card level",
@@ -21,6 +21,10 @@ def _solve(args):
     o = dispatch.solve(cfg, seed=seed)
     o.pop("arrays", None)
     return o
+
+
+#: vocabulary of the refusal messages (Dispatch.tla: UnsupportedWords)
+WORDS = ["iterate-exact", "olarized", "ime-like", "NNLO", "nf=6", "N3LO"]
 
 
 def plan(chk):
@@ -78,7 +82,8 @@ def run(chk):
     recs = []
     keys = set()
     for o in outs:
-        rec = {"ev": "outcome", "cfg": o["cfg"], "kind": o["kind"], "exc": o["exc"] or "none", "msg": o["msg"], "allFinite": o["allFinite"]}
+        rec = {"ev": "outcome", "cfg": o["cfg"], "kind": o["kind"], "exc": o["exc"] or "none", "msg": o["msg"], "allFinite": o["allFinite"],
+               "words": [w for w in WORDS if w in (o["msg"] or "")]}
         recs.append(rec)
         k = tuple(sorted(o["cfg"].items()))
         keys.add(k)
@@ -111,6 +116,9 @@ def run(chk):
         else:
             chk.diag(v)
     bad1 = [dict(recs[0], kind="other", exc="AttributeError")]
+    refused = next((x for x in recs if x["ev"] == "outcome" and x["kind"] == "NotImplementedError" and x["words"]), None)
+    if refused is not None:
+        bad1.append(dict(refused, words=[]))
     r2 = chk.tlc("DispatchTrace", "DispatchTrace.cfg", trace=bad1, workers=1, label="corrupted outcome (must be rejected)")
-    if not [t for t in r2.printed("BAD") if t[2].startswith("C04:")]:
+    if len({t[1] for t in r2.printed("BAD") if t[2].startswith("C04:")}) != len(bad1):
         raise MachineryError("binding demonstration failed")
